@@ -23,6 +23,10 @@ func (p *Program) listenForResize(done chan struct{}) {
 		close(done)
 	}()
 
+	// Get the initial terminal size and send it to the program. From here on
+	// every change of size raises a signal we will see.
+	p.checkResize()
+
 	for {
 		select {
 		case <-p.ctx.Done():
